@@ -274,6 +274,8 @@ func (l *leaderEpochCache) flush() error {
 			return err
 		}
 	}
+	crashPoint("epoch-checkpoint.before")
+	defer crashPoint("epoch-checkpoint.after")
 	return atomic_file.WriteFile(l.checkpointFile, b)
 }
 
